@@ -301,7 +301,8 @@ func runCheck(id, tier string, seed int, repo string, overlay map[string][]byte,
 			// change verdict (every other function sees the mutated ones by contract)
 			fn := eng.funcs[name]
 			file := fn.Prog.Fset.Position(fn.Pos()).Filename
-			if _, mutated := overlay[file]; !mutated {
+			if _, mutated := overlay[file]; !mutated && file != "" {
+				// (a synthetic package initialiser has no position: always re-verified)
 				skipped[name] = true
 				continue
 			}
